@@ -744,13 +744,15 @@ def step_nary(b: Builder, name=None):
     if name == "einsum":
         return _einsum_step(b, a, fl)
     if name == "multi_matmul":
-        if nd != 2:
+        if nd not in (1, 2):
             return None
-        args = [a]
+        args = [a]  # (a 1-D first operand is a row vector, a 1-D last operand a column vector - as for multi_dot)
         cur = shp[-1]
-        for _ in range(d(st.integers(1, 3))):
+        n_more = d(st.integers(1, 3))
+        for i in range(n_more):
             m = d(st.integers(1, 3))
-            args.append(b.leaf(d(st.sampled_from(["var", "var", "const", "array"])), [cur, m]))
+            last_1d = i == n_more - 1 and d(st.integers(0, 2)) == 0
+            args.append(b.leaf(d(st.sampled_from(["var", "var", "const", "array"])), [cur] if last_1d else [cur, m]))
             cur = m
         return b.op("multi_matmul", args, None, constant=draw_const_flag(b))
     # matmul
